@@ -195,6 +195,21 @@ def gen_cases(rec, rng, tier):
             names = fag.random_names(rng, n, avoid=('start', 'accept'))
             mp = dict(zip(R[0], names))
             yield {'kind': 'dfa', 'cls': 'random_dfa_renamed', 'ref': fag.rename(R, mp), 'iso': h64(R), 'back': {v: k_ for k_, v in mp.items()}}
+    # wide alphabets with MANY parallel transitions between one pair of states (round 14, C06_l: a 'balanced sum' of the labels of
+    # parallel edges that drops a subtree for 6, 7, 10..15 terms): 2-3 states, 6..16 symbols, most symbols of a state share a target
+    letters = 'abcdefghijklmnop'
+    for i in range(60 if thorough else 10):
+        n = rng.randint(1, 3)
+        k = (6, 7, 10, 11, 13, 15, 8, 9, 12, 16)[(i + rec.shard) % 10]
+        Q = ['q%d' % j for j in range(n)]
+        S = letters[:k]
+        T = []
+        for q in Q:
+            main = rng.choice(Q)
+            for a in S:
+                T.append((q, a, main if rng.random() < 0.85 else rng.choice(Q)))
+        Rw = fa.make(Q, S, T, Q[0], [q for q in Q if rng.random() < 0.5] or [Q[-1]])
+        yield {'kind': 'dfa', 'cls': 'wide_alphabet_parallel_edges', 'ref': Rw, 'iso': h64(Rw)}
     # state names that collide with the helper states the construction introduces
     for names in (['start', 'q1', 'q2'], ['accept', 'start', 'x'], ['q0', 'accept', 'q2']):
         R = fag.random_connected_dfa(rng, 3, 2, names=names)
